@@ -360,7 +360,7 @@ class Ref:
             return ""
         if k == "block":
             v, o = self.invoke(env.defs[n[1]], [], env, None)
-            return o      # the value of a block call is dropped
+            return o + v  # what the block wrote, then what it returned (a buffered block's content)
         if k == "call":
             callables = {}
             benv = env.sub()
